@@ -40,9 +40,19 @@ class Ctx:
         self.explored = {'cfg_edges': 0, 'paths': 0, 'valuations': 0}
         self.extra = {}
         self._adv = None
+        self.broken = []
 
     def sub(self, db=None):
         return Ctx(self.pid, self.tier, db or self.db, scratch=True)
+
+    def attempt(self, fn, *args, **kw):
+        """run one group of rules; a construct it cannot analyse (AnalysisBroken) is recorded and the other groups still run, so
+        that an undecidable obligation never hides a violation found elsewhere"""
+        try:
+            return fn(*args, **kw)
+        except AnalysisBroken as e:
+            self.broken.append(str(e))
+            return None
 
     def touch(self, fn):
         self.functions.add('%s @ %s' % (fn.qn, fn.loc()))
@@ -97,7 +107,7 @@ def finish(ctx, t0, level='other', assumptions=(), explanation='', trusted=()):
     pid = ctx.pid
     known = [k for k in load_known() if k.get('property') == pid]
     known_keys = {(k['rule'], k['key']): k for k in known if k.get('status') == 'known'}
-    broken = []
+    broken = list(ctx.broken)
     for rule, found, minimum in ctx.mins:
         if found < minimum:
             broken.append('rule %s matched %d instances, confirmed minimum is %d' % (rule, found, minimum))
@@ -179,16 +189,19 @@ def finish(ctx, t0, level='other', assumptions=(), explanation='', trusted=()):
 
     for o in knowns:
         print('KNOWN-FINDING: property=%s %s [%s] %s — %s' % (pid, o.loc, o.rule, o.key, o.what))
-    if broken:
-        for b in broken:
-            print('ANALYSIS-BROKEN: %s' % b)
-        return 2
     if viols:
+        # a violation is definitive even when another obligation could not be analysed
+        for b in broken:
+            print('  note: could not be analysed: %s' % b)
         for o in viols:
             print('  violation: %s [%s] %s — %s' % (o.loc, o.rule, o.key, o.what))
             if o.path:
                 print('      path: ' + ' -> '.join(o.path[:40]))
         print('VIOLATION property=%s replay=%s' % (pid, report))
         return 1
+    if broken:
+        for b in broken:
+            print('ANALYSIS-BROKEN: %s' % b)
+        return 2
     print('[%s] OK (%.1fs)' % (pid, wall))
     return 0
